@@ -46,6 +46,13 @@ class HErr(Exception):
         self.tag = tag
 
 
+class HFalsyErr(HErr):
+    """an exception instance whose truth value is False: an error must be recognised by `is not None`"""
+
+    def __len__(self):
+        return 0
+
+
 class HBaseErr(BaseException):
     def __init__(self, tag):
         BaseException.__init__(self, tag)
